@@ -60,6 +60,8 @@ type c13Scn struct {
 	// Cmds: command name -> script (steps after the name)
 	Cmds map[string]string `json:"cmds,omitempty"`
 	// Sched: run under the seeded scheduler (layer B); Tape are its choices
+	// Warm: the Interpreter is reused: the same program ran once before in a world of its own
+	Warm  bool  `json:"warm,omitempty"`
 	Sched bool  `json:"sched,omitempty"`
 	Tape  []int `json:"tape,omitempty"`
 }
@@ -313,6 +315,7 @@ func (c13Engine) Gen(r *core.Rand, tier string, i int) any {
 		sc.End = c13GenOps(r, 0, kids, false)
 	}
 	sc.Output = core.Pick(r, []string{"bare", "bufio", "bufio-real", "flush"})
+	sc.Warm = kids == "none" && r.Chance(1, 6)
 	if kids == "talkers" {
 		// A child that writes to the shared standard output while the program does (finding
 		// F-C13-1) corrupts an unsynchronised buffered writer: with a real bufio.Writer the
@@ -866,11 +869,39 @@ func c13Exec(sc *c13Scn, src string, ops map[int]*c13Op, failAt int, log *core.L
 	if sc.CRLF {
 		cfg.NewlineOutput = interp.CRLFNewlineMode
 	}
+	run := func() execResult { return execProgram(prog, cfg) }
+	if sc.Warm && !sc.Sched {
+		it, ierr := interp.New(prog)
+		if ierr != nil {
+			core.Fatal("C13: New: %v", ierr)
+		}
+		// an earlier complete run of the same program on the same Interpreter, fault-free, in a
+		// world of its own (own files, own sink); nothing of it may reach the measured run
+		wfs, werr := core.NewSimFS(scratchBase(), nil)
+		if werr != nil {
+			core.Fatal("C13: simfs: %v", werr)
+		}
+		_ = wfs.Put("recs", []byte(recs.String()))
+		warm := *cfg
+		warm.Output, warm.Error, warm.OpenFile = core.NewSimSink("warm", nil), core.NewSimSink("warmerr", nil), wfs.Open
+		warm.Stdin = nullFile()
+		c13cur = &c13State{ops: ops, crlf: sc.CRLF}
+		wr := guarded(func() (int, error) { return it.Execute(&warm) })
+		wfs.Remove()
+		c13cur = st
+		if wr.Panic != "" {
+			res.Res = wr
+			res.Trace = st.trace
+			return res
+		}
+		it.ResetVars()
+		run = func() execResult { return guarded(func() (int, error) { return it.Execute(cfg) }) }
+	}
 	if sc.Sched {
-		c13RunScheduled(sc, ops, srv, sink, func() execResult { return execProgram(prog, cfg) }, res, log)
+		c13RunScheduled(sc, ops, srv, sink, run, res, log)
 	} else {
 		done := make(chan execResult, 1)
-		go func() { done <- execProgram(prog, cfg) }()
+		go func() { done <- run() }()
 		c13Schedule(sc, srv, sink, done, res, log)
 	}
 	// Everything a child sent before it went away is already queued: drain it.
@@ -1451,6 +1482,9 @@ func (c13Engine) Shrink(scAny any) []any {
 	}
 	if sc.CRLF {
 		add(func(c *c13Scn) { c.CRLF = false })
+	}
+	if sc.Warm {
+		add(func(c *c13Scn) { c.Warm = false })
 	}
 	if len(sc.Pre) > 0 {
 		add(func(c *c13Scn) { c.Pre = nil })
